@@ -20,7 +20,8 @@
 (*    credHelpers : sequence of [host, helper] (hosts pairwise different), *)
 (*    helpers     : helper name -> [kind, user, secret]  -- what running   *)
 (*                  that helper does: "creds" | "token" | "notfound" |     *)
-(*                  "nobinary" | "error"]                                  *)
+(*                  "nobinary" | "error" | answers with members left out   *)
+(*                  (see RunHelper)]                                       *)
 (*                                                                         *)
 (* Lookup(cfg, h) is the specification: a function of the configuration    *)
 (* (and helper behaviours) only.  Build/LookupOp is the operational        *)
@@ -184,13 +185,28 @@ HelperFor(cfg, h) ==
   ELSE [name |-> cfg.credsStore, explicit |-> FALSE]
 
 AT == 64  \* the scripted helpers answer user "<user>@<server URL they were asked about>"
+\* What a helper does is given per helper: its kind and the user/secret it knows.  Kinds "creds",
+\* "token", "notfound", "nobinary", "error" are whole behaviours; the others are helper programs whose JSON
+\* answer leaves members out (absent members mean empty fields - never an earlier answer's values):
+\*   "useronly" {"Username":u}   "secretonly" {"Secret":s}   "emptyobj" {}   "urlonly" {"ServerURL":h}
+\*   "extra" a full answer with further members
+\*   "mixed" depends on the host asked about: last byte mod 3 = 1 full answer, 2 user only, 0 (or no byte) {}
+HostClass(h) == IF Len(h) = 0 THEN 0 ELSE h[Len(h)] % 3
 RunHelper(cfg, name, h) ==
   LET b == cfg.helpers[name]
-  IN CASE b.kind = "creds"    -> [ZeroRes EXCEPT !.user = b.user \o <<AT>> \o h, !.pass = b.secret]
-       [] b.kind = "token"    -> [ZeroRes EXCEPT !.refresh = b.secret]
-       [] b.kind = "notfound" -> ZeroRes          \* the helper has nothing for h: "no credentials", not an error
-       [] b.kind = "nobinary" -> FailRes("nobinary", "nobinary")
-       [] OTHER               -> FailRes("helper", "helper")
+      full == [ZeroRes EXCEPT !.user = b.user \o <<AT>> \o h, !.pass = b.secret]
+      uonly == [ZeroRes EXCEPT !.user = b.user \o <<AT>> \o h]
+  IN CASE b.kind = "creds"      -> full
+       [] b.kind = "extra"      -> full
+       [] b.kind = "token"      -> [ZeroRes EXCEPT !.refresh = b.secret]
+       [] b.kind = "notfound"   -> ZeroRes          \* the helper has nothing for h: "no credentials", not an error
+       [] b.kind = "useronly"   -> uonly
+       [] b.kind = "secretonly" -> [ZeroRes EXCEPT !.pass = b.secret]
+       [] b.kind = "emptyobj"   -> ZeroRes
+       [] b.kind = "urlonly"    -> ZeroRes
+       [] b.kind = "mixed"      -> IF HostClass(h) = 1 THEN full ELSE IF HostClass(h) = 2 THEN uonly ELSE ZeroRes
+       [] b.kind = "nobinary"   -> FailRes("nobinary", "nobinary")
+       [] OTHER                 -> FailRes("helper", "helper")
 
 WithCalls(r, calls) == [ok |-> r.ok, class |-> r.class, kind |-> r.kind, refresh |-> r.refresh,
                         access |-> r.access, user |-> r.user, pass |-> r.pass, calls |-> calls]
